@@ -1,7 +1,101 @@
-(* C18 -- property theorems only: statement + exact + Print Assumptions. *)
+(* C18 -- property theorems only: statement + exact + Print Assumptions.
+   Files are byte strings (lists of Z in 0..255, predicate [bytes]); [look] is any
+   rescale[] accessor agreeing with the materialised table ([look_ok]; both
+   [look_tbl] and the closed form [look_fn] used by the extracted model do);
+   rgb_to_cmyk is a parameter [cmyk] of the model. *)
 From Coq Require Import List ZArith.
-From LJT Require Import model.Pnm.
+From LJT Require Import gen.GenPnm model.Pnm proofs.PnmProofs proofs.PnmRoundtrip proofs.PnmTop proofs.PnmExamples.
+Import ListNotations.
 Local Open Scope Z_scope.
-Theorem C18_tmp : pbm_getc nil = (None, nil).
-Proof. reflexivity. Qed.
-Print Assumptions C18_tmp.
+
+(* (1) for EVERY byte string: no rescale[] index outside the allocation (E_OOB),
+   parsing terminates within its fuel (E_FUEL), and a success consumed at least one
+   byte per pixel (running out of input is an error, never a success) *)
+Theorem C18_pnm_index_safe : forall cmyk look prec maxpixels want bottomup s,
+  look_ok look -> 2 <= prec <= 16 -> bytes s ->
+  (forall e, load_pnm cmyk look prec maxpixels want bottomup s = Err e -> e <> E_OOB /\ e <> E_FUEL) /\
+  (forall w h t rows, load_pnm cmyk look prec maxpixels want bottomup s = Ok (w, h, t, rows) ->
+     w * h <= Z.of_nat (length s)).
+Proof. exact index_safe_top. Qed.
+Print Assumptions C18_pnm_index_safe.
+
+(* the table has max(maxval,255)+1 entries; text values of ANY digit count and
+   16-bit raw values above maxval never come back from the sample readers *)
+Theorem C18_pnm_values_checked : forall prec maxval,
+  look_ok look_tbl /\
+  Z.of_nat (length (build_table prec maxval)) = Z.max maxval 255 + 1 /\
+  (forall s v s', read_pbm_integer maxval s = Ok (v, s') -> 0 <= v <= maxval) /\
+  (forall s v s', get_raw KWord maxval s = Ok (v, s') -> v <= maxval).
+Proof. exact table_facts. Qed.
+Print Assumptions C18_pnm_values_checked.
+
+(* (2) every returned sample is within the precision, the geometry is consistent and
+   the pixel limit is honoured (CMYK: provided rgb_to_cmyk itself is bounded) *)
+Theorem C18_pnm_samples_in_range : forall cmyk look prec maxpixels want bottomup s w h t rows,
+  look_ok look -> 2 <= prec <= 16 -> bytes s ->
+  load_pnm cmyk look prec maxpixels want bottomup s = Ok (w, h, t, rows) ->
+  1 <= w <= 65535 /\ 1 <= h <= 65535 /\
+  (maxpixels = 0 \/ w * h <= maxpixels) /\
+  length rows = Z.to_nat h /\
+  (t <> TCmyk \/ cmyk_in_prec cmyk prec ->
+   Forall (fun row => Forall (in_prec prec) row /\ length row = (Z.to_nat w * Z.to_nat (target_ps t))%nat) rows).
+Proof. exact samples_in_range_top. Qed.
+Print Assumptions C18_pnm_samples_in_range.
+
+(* (3) the rescale table: bounded, monotone, identity when maxval = 2^prec-1, 0 above maxval *)
+Theorem C18_rescale_identity : forall prec maxval, 0 <= prec -> 0 < maxval ->
+  (forall v, 0 <= v <= maxval -> 0 <= rescale_val prec maxval v <= 2 ^ prec - 1) /\
+  (forall v1 v2, v1 <= v2 -> rescale_val prec maxval v1 <= rescale_val prec maxval v2) /\
+  (maxval = 2 ^ prec - 1 -> forall v, 0 <= v <= maxval -> rescale_val prec maxval v = v) /\
+  (forall i, 0 <= i <= Z.max maxval 255 -> exists x, look_tbl prec maxval i = Ok x /\ 0 <= x <= 2 ^ prec - 1 /\
+        (i <= maxval -> x = rescale_val prec maxval i) /\ (maxval < i -> x = 0)).
+Proof. exact rescale_top. Qed.
+Print Assumptions C18_rescale_identity.
+
+(* (4) save then load, every precision 2..16, gray and every RGB-family layout, both
+   row orders, every image the reader's 16-bit header fields can describe *)
+Theorem C18_ppm_save_load_roundtrip : forall cmyk uncmyk look prec t bottomup w h rows,
+  look_ok look -> 2 <= prec <= 16 -> t <> TCmyk ->
+  1 <= w <= 65535 -> 1 <= h <= 65535 -> length rows = Z.to_nat h ->
+  Forall (Forall (in_prec prec)) rows ->
+  load_pnm cmyk look prec 0 (Some t) bottomup (save_pnm uncmyk prec t bottomup w h rows)
+  = Ok (w, h, t, map (canon_row prec t (Z.to_nat w)) rows).
+Proof. exact roundtrip_top. Qed.
+Print Assumptions C18_ppm_save_load_roundtrip.
+
+(* ... where canon_row is the identity for TJPF_GRAY, TJPF_RGB, TJPF_BGR and keeps the
+   red, green and blue samples of every other layout of the current source (alpha,
+   which the file does not store, comes back opaque) *)
+Theorem C18_roundtrip_is_identity : forall prec,
+  (forall n row, length row = n -> canon_row prec TGray n row = row) /\
+  (forall pf l n row, (pf = 0 \/ pf = 1) -> layout_of_pf pf = Some (TRgb l) -> length row = (n * 3)%nat ->
+     canon_row prec (TRgb l) n row = row) /\
+  (forall pf l px, layout_of_pf pf = Some (TRgb l) ->
+     nthz (canon_px prec (TRgb l) px) (l_r l) = nthz px (l_r l) /\
+     nthz (canon_px prec (TRgb l) px) (l_g l) = nthz px (l_g l) /\
+     nthz (canon_px prec (TRgb l) px) (l_b l) = nthz px (l_b l) /\
+     (l_a l <> -1 -> nthz (canon_px prec (TRgb l) px) (l_a l) = 2 ^ prec - 1)).
+Proof. exact canon_top. Qed.
+Print Assumptions C18_roundtrip_is_identity.
+
+(* ---- non-vacuity ---- *)
+Example C18_ex_text_ok : bytes f_text /\ load_pnm cmyk_exact look_tbl 2 0 None false f_text = Ok (2, 1, TGray, [[1; 2]]).
+Proof. exact ex_text_ok. Qed.
+Example C18_ex_f8_rejected :
+  load_pnm cmyk_exact look_tbl 2 0 (Some rgb) false f_f8 = Err E_RANGE /\
+  load_pnm cmyk_exact look_tbl 2 0 (Some TGray) false f_f8 = Err E_RANGE /\
+  load_pnm cmyk_exact look_tbl 2 0 (Some TCmyk) false f_f8 = Err E_RANGE.
+Proof. exact ex_f8_rejected. Qed.
+Example C18_ex_f9_in_range :
+  load_pnm cmyk_exact look_tbl 2 0 (Some TGray) false f_f9 = Ok (2, 1, TGray, [[0; 2]]) /\
+  load_pnm cmyk_exact look_tbl 2 0 (Some rgb) false f_f9 = Ok (2, 1, rgb, [[0; 0; 0; 2; 2; 2]]).
+Proof. exact ex_f9_in_range. Qed.
+Example C18_ex_f10_in_range :
+  load_pnm cmyk_exact look_tbl 12 0 (Some TCmyk) false f_f10 = Ok (1, 1, TCmyk, [[4095; 0; 0; 4095]]).
+Proof. exact ex_f10_in_range. Qed.
+Example C18_ex_cmyk_assumption_satisfiable : forall prec, 2 <= prec <= 16 -> cmyk_in_prec cmyk_exact prec.
+Proof. exact cmyk_exact_in_prec. Qed.
+Example C18_ex_roundtrip_instance :
+  load_pnm cmyk_exact look_tbl 12 0 (Some rgba) true (save_pnm no_uncmyk 12 rgba true 2 2 img12)
+  = Ok (2, 2, rgba, [[1; 2; 3; 4095; 4095; 0; 7; 4095]; [100; 200; 300; 4095; 4000; 3000; 2000; 4095]]).
+Proof. exact (proj2 ex_roundtrip). Qed.
